@@ -42,7 +42,18 @@ def main():
             if hasattr(mod, 'regenerate'):
                 mod.regenerate(ctx)      # tie T2/T3: rewrite lean/HcipyVerif/Gen/*.lean from the running code
             ctx.build_and_audit()
-        mod.run(ctx)
+        try:
+            mod.run(ctx)
+        except common.MachineryError:
+            raise
+        except Exception:
+            # The harness could not interpret what the implementation did (it raised while driving or observing
+            # the real code).  On the unchanged tree this never happens; on a changed tree it means the
+            # correspondence between model and code no longer checks.  It is reported as such - with whatever
+            # concrete violations the oracle had already found - instead of hiding behind exit 2.
+            tb = traceback.format_exc()
+            sys.stderr.write(tb)
+            ctx.disagree('harness-exception', {'traceback': tb[-3000:]})
         return ctx.finish()
     except common.MachineryError as e:
         print('MACHINERY-ERROR %s: %s' % (prop, e))
